@@ -55,6 +55,61 @@ def rename_wrapper_inputs(rng, g):
     return ren
 
 
+def inner_bind_default_part(ctx):
+    """A parameter WITH a signature default, bound on the inner graph and also consumed (same default) by a node outside it: the
+    flat graph with that binding is accepted and runs, so the nested one must be too (known finding F-s: it is rejected)."""
+    from hypergraph import Graph, SyncRunner
+    from hypergraph.nodes import FunctionNode
+
+    def tokenize(text, lang="en"):
+        return (text, lang)
+
+    def label(tokens, lang="en"):
+        return (tokens, lang)
+    T = FunctionNode(tokenize, name="tokenize", output_name="tokens")
+    L = FunctionNode(label, name="label", output_name="labelled")
+    flat = SyncRunner().run(Graph([T, L]).bind(lang="de"), {"text": "x"}).values
+    case = {"graph": {"nodes": [{"name": "tok", "kind": "graph", "graph": {"nodes": [{"name": "tokenize", "kind": "func"}], "bound": {"lang": "de"}}},
+                                {"name": "label", "kind": "func"}]}}
+    try:
+        nested = SyncRunner().run(Graph([Graph([T], name="tok").bind(lang="de").as_node(), L]), {"text": "x"}).values
+    except Exception as e:  # noqa: BLE001
+        ctx.violation("oracle", f"the flat graph is accepted but the nested one is rejected by the constructor: {type(e).__name__}: {str(e)[:160]}", case=case)
+        nested = flat
+    if dict(nested) != dict(flat):
+        ctx.violation("oracle", f"inner binding of a defaulted parameter shared with an outside node: flat {dict(flat)} vs nested {dict(nested)}", case=case)
+    # the same without signature defaults (depth 1 and 2, both runners): a value bound on the inner graph reaches a plain node OUTSIDE it
+    # that consumes the same name, exactly as the flat graph's binding does
+    import asyncio
+    from hypergraph import AsyncRunner
+    n = 1
+    for depth in (1, 2):
+        for runner in ("sync", "async"):
+            def tok2(text, lang):
+                return (text, lang)
+
+            def lab2(tokens, lang):
+                return (tokens, lang)
+            T2 = FunctionNode(tok2, name="tokenize", output_name="tokens")
+            L2 = FunctionNode(lab2, name="label", output_name="labelled")
+            inner = Graph([T2], name="tok").bind(lang="de")
+            for d in range(depth - 1):
+                inner = Graph([inner.as_node()], name=f"lvl{d}")
+            flat_g, nested_g = Graph([T2, L2]).bind(lang="de"), Graph([inner.as_node(), L2])
+            run = (lambda G: SyncRunner().run(G, {"text": "x"})) if runner == "sync" else (lambda G: asyncio.run(AsyncRunner().run(G, {"text": "x"})))
+            try:
+                fv, nv = dict(run(flat_g).values), dict(run(nested_g).values)
+            except Exception as e:  # noqa: BLE001
+                ctx.violation("oracle", f"inner binding shared with an outside node (depth {depth}, {runner}) raised {type(e).__name__}: {str(e)[:120]}",
+                              case={"family": "inner_bind_shared", "depth": depth, "runner": runner})
+                continue
+            n += 1
+            if fv != nv:
+                ctx.violation("oracle", f"a value bound on the inner graph (depth {depth}, {runner}) and consumed by a node outside it: flat {fv} vs nested {nv}",
+                              case={"family": "inner_bind_shared", "depth": depth, "runner": runner})
+    return n
+
+
 def run(ctx):
     rng = ctx.rng
     cases, groups = [], []
@@ -143,7 +198,7 @@ def run(ctx):
                     dist["inner_select"] += int(n["graph"].get("selected") is not None)
                     walk(n["graph"])
         walk(gn)
-    n_rep = repeated_runs_part(ctx)
+    n_rep = repeated_runs_part(ctx) + inner_bind_default_part(ctx)
     obs_all, res = engine.run_cases(ctx, "C05", cases)
     nontrivial = set()
     for (a, b, ren) in groups:
